@@ -307,8 +307,22 @@ def analyse_full(fn, facts):
         return mr
     sw = switches[0]
     on = unwrap(sw["cond"])
+    narrowed = None
+    while isinstance(on, dict) and on.get("k") == "Cast":
+        # a cast of the key is harmless only if it keeps all 64 bits
+        t = on.get("t") or ""
+        bits = {"long": 64, "unsigned long": 64, "long long": 64, "unsigned long long": 64}.get(t)
+        if bits is None:
+            en = facts.enums.get(t)
+            bits = {"long": 64, "unsigned long": 64}.get(en["underlying"]) if en else None
+        if bits != 64:
+            narrowed = t
+        on = unwrap(on.get("e"))
     if not (isinstance(on, dict) and decoder_call(on) == "read_integer"):
         mr.problems.append(("key", sw["l"], "switch operand is %s; the key must be read with read_integer() exactly once per iteration" % show(sw["cond"])))
+    elif narrowed:
+        mr.problems.append(("key", sw["l"], "the 64-bit map key is converted to %s before the dispatch: an unknown key that equals a known key modulo the "
+                            "narrower type is taken for that member instead of being skipped" % narrowed))
     # other item consumption at loop level outside the switch and the break test
     for s in body[1:]:
         if s is sw:
